@@ -142,6 +142,7 @@ int cif_pktitr_next_packet(
         FAILURE_HANDLING;
         sqlite3_stmt *stmt = iterator->stmt;
         int current_row = sqlite3_column_int(stmt, 0);
+        int initial_previous_row = iterator->previous_row_num;
         cif_packet_tp *temp_packet;
         struct entry_s *pending = NULL;
         int result;
@@ -283,6 +284,24 @@ int cif_pktitr_next_packet(
                 cif_map_entry_free_internal(pending, &(temp_packet->map));
             }
             cif_packet_free(temp_packet);
+
+            /*
+             * The cursor may have advanced past some or all of the values of the packet that could not be delivered.
+             * Return it to that packet's first value and restore the iterator's state, so that the packet is neither
+             * skipped nor delivered incomplete if the call is repeated.
+             */
+            iterator->previous_row_num = initial_previous_row;
+            iterator->finished = 0;
+            (void) sqlite3_reset(stmt);
+            while ((result = sqlite3_step(stmt)) == SQLITE_ROW) {
+                if (sqlite3_column_int(stmt, 0) == current_row) {
+                    break;
+                }
+            }
+            if (result == SQLITE_DONE) {
+                /* should not happen: the packet's values are still there */
+                iterator->finished = 1;
+            }
         }
     
         FAILURE_TERMINUS;
